@@ -95,6 +95,16 @@ def convention(name):
 def base_context(delegates=True, conv=None):
     if conv is None:
         return common.std_context(delegates=delegates)
+    if conv == 'none':
+        # the library registered into a context that has no naming
+        # convention at all (contexts.Context() as hosts create it)
+        key = ('no-convention', delegates)
+        if key not in _CONVENTIONS:
+            import yaql
+            from yaql.language import contexts
+            _CONVENTIONS[key] = yaql.create_context(
+                context=contexts.Context(), delegates=delegates)
+        return _CONVENTIONS[key]
     return common.std_context(delegates=delegates,
                               convention=convention(conv))
 
